@@ -21,7 +21,7 @@ COMMUTATIVE = {0, 8, 22}
 # jn: how many of them also get the two Jacobian events; deep: differences as close as 1e-6 to pi
 PLAN = {
     "quick": dict(gs=[1, 2, 3, 8, 20], n=7, jn=2, deep=0, nchunks=32, timeout=900),
-    "thorough": dict(gs=[0, 1, 2, 3, 8, 20, 21, 22], n=72, jn=24, deep=1, nchunks=160, timeout=3000),
+    "thorough": dict(gs=[0, 1, 2, 3, 8, 20, 21, 22], n=72, jn=24, deep=1, nchunks=160, timeout=7200),
 }
 
 OPS = ("eval_vs", "eval_gs", "dg_dvs", "dg_dgs")
